@@ -42,9 +42,12 @@ def run_history(fw, use_cache, ops):
             else:
                 ref = op.get("state")
                 code = "code%d" % ref if isinstance(ref, int) else "codeX"
-                (res, sent) = a.callback(op["sess"], op["prov"], ref, code)
+                (res, sent) = a.callback(op["sess"], op["prov"], ref, code, bool(op.get("provider_fails")))
+                a.provider.fail_next = False
                 if res[0] == "token":
                     outs.append(["exchanged", sent, "userinfo" in res[1]])
+                elif op.get("provider_fails") and sent is not None and ("invalid_grant" in res[2] or "token_rejected" in res[2] or res[1] in ("OAuthError", "HTTPStatusError", "HTTPError")):
+                    outs.append(["exchanged", sent, None])        # the exchange was attempted with this data; the provider refused
                 elif res[1] in MISMATCH_ERRORS and ("mismatching_state" in res[2] or "request_token" in res[2] or "oauth_token" in res[2]):
                     outs.append(["mismatch", sent])
                 else:
@@ -111,7 +114,7 @@ def check_history(ctx, fw, use_cache, ops, tag):
                     ctx.violation("C14:wrong-code-verifier:%s" % fw, "the token request carried a code_verifier other than the one saved for the state", case)
                 if not o["pkce"] and sent.get("code_verifier"):
                     ctx.violation("C14:stray-code-verifier:%s" % fw, "a code_verifier was sent for a flow without PKCE", case)
-                if o["openid"] and not has_userinfo:
+                if o["openid"] and has_userinfo is False:
                     ctx.violation("C14:nonce-not-validated:%s" % fw, "the ID token was not validated against the saved nonce", case)
             else:
                 if sent.get("request_token") != a.states[ref]:
@@ -146,6 +149,8 @@ def gen_ops(rng, length):
             variant = rng.choice(["own", "own", "own", "other-session", "other-provider", "absent", "garbage", "own"])
             if variant == "own":
                 ops.append({"op": "callback", "sess": sess, "prov": prov, "state": k})
+                if rng.random() < 0.25:
+                    ops[-1]["provider_fails"] = True
             elif variant == "other-session":
                 ops.append({"op": "callback", "sess": 1 - sess, "prov": prov, "state": k})
             elif variant == "other-provider":
@@ -173,6 +178,12 @@ GOLDEN = [
                      {"op": "callback", "sess": 0, "prov": "pkce", "state": 2}, {"op": "callback", "sess": 0, "prov": "both", "state": 0}]),
     ("two-flows-one-provider", [{"op": "begin", "sess": 0, "prov": "both", "redirect": REDIRECTS[0]}, {"op": "begin", "sess": 0, "prov": "both", "redirect": REDIRECTS[1]},
                                 {"op": "callback", "sess": 0, "prov": "both", "state": 0}, {"op": "callback", "sess": 0, "prov": "both", "state": 1}]),
+    ("provider-refuses-then-replay", [{"op": "begin", "sess": 0, "prov": "both", "redirect": REDIRECTS[0]},
+                                      {"op": "callback", "sess": 0, "prov": "both", "state": 0, "provider_fails": True},
+                                      {"op": "callback", "sess": 0, "prov": "both", "state": 0}]),
+    ("provider-refuses-then-replay-oauth1", [{"op": "begin", "sess": 0, "prov": "legacy", "redirect": REDIRECTS[0]},
+                                             {"op": "callback", "sess": 0, "prov": "legacy", "state": 0, "provider_fails": True},
+                                             {"op": "callback", "sess": 0, "prov": "legacy", "state": 0}]),
     ("absent", [{"op": "begin", "sess": 0, "prov": "plain", "redirect": REDIRECTS[0]}, {"op": "callback", "sess": 0, "prov": "plain", "state": None},
                 {"op": "callback", "sess": 0, "prov": "plain", "state": "garbage"}, {"op": "callback", "sess": 0, "prov": "legacy", "state": None}]),
     ("expired", [{"op": "begin", "sess": 0, "prov": "pkce", "redirect": REDIRECTS[0]}, {"op": "tick", "dt": 3601}, {"op": "callback", "sess": 0, "prov": "pkce", "state": 0}]),
